@@ -512,6 +512,51 @@ def rule_r6(F, rep):
     rep.floor(R, n, 1, "append / length pairs on the span manager's tables")
 
 
+def rule_r7(F, rep):
+    R = rep.rule("C16.R7", "the report header names the primary span: put_spans_and_labels takes the labels in the order the error "
+                 "renderers list them (primary label first; the `--> file:line:col` header is taken from the first label of each "
+                 "source) — neither it nor a helper introduced later sorts, reverses or otherwise reorders the labels. Reordering "
+                 "makes a secondary `previously defined here` label supply the header position")
+    fns = [f for f in F.fn_list if f.crate.name == "rsjsonnet_front" and f.q.endswith("::put_spans_and_labels")]
+    if not fns:
+        raise facts_AnchorMissing("report::message::put_spans_and_labels")
+    fn = fns[0]
+    todo = [fn]
+    seen = {fn.q}
+    allf = []
+    while todo:
+        g = todo.pop()
+        allf.append(g)
+        for h in F.closures_of(g):
+            if h.q not in seen:
+                seen.add(h.q)
+                todo.append(h)
+        for bb, t in g.body.calls():
+            q = t["f"].get("r") if t["f"].get("rlocal") else None
+            if q and q not in seen and F.is_new_fn(q):
+                h = F.fn_opt(q)
+                if h is not None and h.body is not None:
+                    seen.add(q)
+                    todo.append(h)
+    REORDER = ("<[T]>::sort", "<[T]>::sort_by", "<[T]>::sort_by_key", "<[T]>::sort_unstable", "<[T]>::sort_unstable_by",
+               "<[T]>::sort_unstable_by_key", "<[T]>::sort_by_cached_key", "<[T]>::reverse", "<[T]>::rotate_left", "<[T]>::rotate_right",
+               "<[T]>::swap", "core::iter::traits::iterator::Iterator::rev", "<alloc::vec::Vec>::swap_remove", "<alloc::vec::Vec>::dedup_by_key")
+    n = 0
+    for g in allf:
+        rep.fn(g)
+        for bb, t in g.body.calls():
+            n += 1
+            nm = callee_name(t) or ""
+            d = t["f"].get("d", "") if t["f"]["k"] == "def" else ""
+            if nm in REORDER or d in REORDER or "BinaryHeap" in nm or "BTreeMap" in nm and nm.endswith("::insert"):
+                rep.ob(R, "%s|%s" % (g.q.rsplit("::", 1)[-1], nm.rsplit("::", 1)[-1]), False)
+                rep.violation(R, "%s|reorders-labels|%s" % (g.q, nm.rsplit("::", 1)[-1]), "%s calls %s: the labels are no longer taken in "
+                              "the order given by the renderer, so the header position can come from a secondary label"
+                              % (g.q.rsplit("::", 1)[-1], nm), g.body.span(t["sp"]))
+    rep.ob(R, "put_spans_and_labels|order-preserved", True, {"functions": [g.q for g in allf], "calls scanned": n})
+    rep.floor(R, n, 10, "calls scanned in put_spans_and_labels")
+
+
 def run(F, rep, tier):
     rep.attempt(rule_r1, F, rep)
     rep.attempt(rule_r2, F, rep)
@@ -519,6 +564,7 @@ def run(F, rep, tier):
     rep.attempt(rule_r4, F, rep)
     rep.attempt(rule_r5, F, rep)
     rep.attempt(rule_r6, F, rep)
+    rep.attempt(rule_r7, F, rep)
     from . import c14
     rep.attempt(c14.rule_r8, F, rep)      # error spans end at the lexer cursor (inside the source)
     rep.assume("the SpanId bit-packing round trip, line/column computation and rendering inside `sourceannot` are not decided")
